@@ -61,7 +61,6 @@ const (
 	c17NodeA      = "node-a" // the node of the target pod
 	c17NodeB      = "node-b" // the other node
 	c17TTL        = 5 * time.Minute
-	c17MaxWriteK  = 5 // fault ops "fail the k-th write of this reconcile" exist for k = 1..c17MaxWriteK
 )
 
 var c17T0 = time.Date(2024, 1, 1, 0, 0, 0, 0, time.UTC)
@@ -137,10 +136,11 @@ func c17Terminal(p sev1alpha1.PodMigrationJobPhase) bool {
 
 type c17Cfg struct {
 	name      string
-	kind      string // key prefix: rf | direct | preset
+	kind      string // key prefix: rf (all ReservationFirst configurations) | direct
 	mode      sev1alpha1.PodMigrationJobMode
 	presetRef bool // the user supplied ReservationRef; the user (environment) creates that reservation
 	maxFaults int
+	maxK      int // fault events "the k-th write of this reconcile fails" exist for k = 1..maxK (0: 5); checked against the observed maximum
 	depth     int
 	replaceA  bool // also: pod replaced on its old node
 	legacy    bool // also: legacy Failed/Unschedulable reservation state
@@ -182,7 +182,7 @@ type c17Op struct {
 func c17BuildOps(cfg *c17Cfg) []c17Op {
 	ops := []c17Op{{"reconcile", c17OpReconcile, 0}}
 	if cfg.maxFaults > 0 {
-		for k := 1; k <= c17MaxWriteK; k++ {
+		for k := 1; k <= cfg.maxK; k++ {
 			ops = append(ops, c17Op{fmt.Sprintf("reconcile!write%d-fails", k), c17OpReconcileFault, k})
 		}
 	}
@@ -463,7 +463,8 @@ func (s *c17Sys) Evict(ctx context.Context, job *sev1alpha1.PodMigrationJob, pod
 			// before the eviction whoever consumed the reservation is "some other pod": the target pod still runs elsewhere
 			cls = "reservation-" + c17RNames[s.m.rsv]
 		case s.m.rsv == c17RSched && (s.m.rsvNode == "" || s.m.rsvNode == s.m.podNode()):
-			cls = "reservation-on-the-pods-node(pod=" + c17PNames[s.m.pod] + ")"
+			// one class per root cause: the original pod vs. a same-name replacement (either landing node)
+			cls = "reservation-on-the-pods-node(pod=" + strings.SplitN(c17PNames[s.m.pod], "-", 2)[0] + ")"
 		}
 		if cls != "" {
 			rec.gateOK = false
@@ -999,6 +1000,9 @@ var c17Assumptions = []string{
 }
 
 func c17Run(t *testing.T, env *mc.Env, cfg *c17Cfg) {
+	if cfg.maxK == 0 {
+		cfg.maxK = 5
+	}
 	cfg.ops = c17BuildOps(cfg)
 	for _, n := range cfg.prefix {
 		found := false
@@ -1013,12 +1017,12 @@ func c17Run(t *testing.T, env *mc.Env, cfg *c17Cfg) {
 	}
 	res := mc.NewResult("C17", cfg.name, "bfs")
 	res.Rule = fmt.Sprintf("BFS over all sequences (<= depth %d) of the %d-event alphabet {reconcile; reconcile with the k-th API write (k<=%d, incl. the Evict call) failing, <= %d failures per history; reservation: unschedulable / scheduled on other node / scheduled on the pod's node / expired / deleted / bound to the job's new pod / bound to another pod; target pod deleted / replaced (new UID); bound pod ready; clock passes the job TTL; controller restart} on the real Reconciler.Reconcile + production reservation interpreter over a fake client holding real objects; mode %s; states deduplicated by persisted job + stored objects + reference model",
-		cfg.depth, len(cfg.ops), c17MaxWriteK, cfg.maxFaults, cfg.mode)
+		cfg.depth, len(cfg.ops), cfg.maxK, cfg.maxFaults, cfg.mode)
 	res.Assumptions = c17Assumptions
 	if len(cfg.prefix) > 0 {
 		res.Rule += fmt.Sprintf("; every history starts with the fixed prefix %v (the fault-free road up to the issued eviction)", cfg.prefix)
 	}
-	res.Bounds = map[string]any{"prefix": cfg.prefix, "max_faults_per_history": cfg.maxFaults, "fault_positions_per_reconcile": c17MaxWriteK, "pod_replacements": 1, "nodes": 2}
+	res.Bounds = map[string]any{"prefix": cfg.prefix, "max_faults_per_history": cfg.maxFaults, "fault_positions_per_reconcile": cfg.maxK, "pod_replacements": 1, "nodes": 2}
 	b := &mc.BFS{Res: res, Env: env, New: func() mc.System { return c17NewSys(cfg, res) }, NumOps: len(cfg.ops),
 		OpName: func(i int) string { return cfg.ops[i].name }, MaxDepth: cfg.depth,
 		// no Go map is iterated on the reconcile path (object limiter maps are nil as in newTestReconciler), so one
@@ -1026,9 +1030,9 @@ func c17Run(t *testing.T, env *mc.Env, cfg *c17Cfg) {
 		Repeats: 0}
 	b.Run()
 	if env.Replay == "" {
-		if mw := res.Counters["max_writes_in_one_reconcile"]; mw > c17MaxWriteK {
+		if mw := res.Counters["max_writes_in_one_reconcile"]; mw > int64(cfg.maxK) {
 			res.Exhaustive = false
-			res.Capped = strings.TrimPrefix(res.Capped+fmt.Sprintf("; a reconcile made %d writes but fault positions only cover the first %d", mw, c17MaxWriteK), "; ")
+			res.Capped = strings.TrimPrefix(res.Capped+fmt.Sprintf("; a reconcile made %d writes but fault positions only cover the first %d", mw, cfg.maxK), "; ")
 		}
 		// vacuity: every clause must have been exercised
 		need := []string{"reconciles", "finished_by:Succeeded", "max_writes_in_one_reconcile"}
@@ -1037,7 +1041,10 @@ func c17Run(t *testing.T, env *mc.Env, cfg *c17Cfg) {
 		}
 		need = append(need, "reconcile_of_finished_job(Failed)", "finished_by:Failed/Timeout")
 		if !cfg.pending {
-			need = append(need, "evict_calls", "reconcile_of_finished_job(Succeeded)")
+			need = append(need, "reconcile_of_finished_job(Succeeded)")
+			if len(cfg.prefix) == 0 {
+				need = append(need, "evict_calls")
+			}
 		}
 		for _, n := range need {
 			if res.Counters[n] == 0 {
@@ -1052,7 +1059,7 @@ func c17Run(t *testing.T, env *mc.Env, cfg *c17Cfg) {
 func TestVerifC17RF(t *testing.T) {
 	env := mc.LoadEnv()
 	c17Run(t, env, &c17Cfg{name: "rf-hist", kind: "rf", mode: sev1alpha1.PodMigrationJobModeReservationFirst,
-		maxFaults: env.Pick(1, 2), depth: env.Pick(7, 10), replaceA: env.Thorough(), legacy: env.Thorough()})
+		maxFaults: env.Pick(1, 2), depth: env.Pick(8, 10), replaceA: env.Thorough(), legacy: env.Thorough()})
 }
 
 func TestVerifC17Aux(t *testing.T) {
@@ -1065,10 +1072,10 @@ func TestVerifC17Aux(t *testing.T) {
 	c17Run(t, env, &c17Cfg{name: "direct-hist", kind: "direct", mode: sev1alpha1.PodMigrationJobModeEvictionDirectly,
 		maxFaults: env.Pick(1, 2), depth: env.Pick(6, 9), replaceA: env.Thorough()})
 	if env.Thorough() {
-		c17Run(t, env, &c17Cfg{name: "rf-preset-ref-hist", kind: "preset", mode: sev1alpha1.PodMigrationJobModeReservationFirst, presetRef: true,
+		c17Run(t, env, &c17Cfg{name: "rf-preset-ref-hist", kind: "rf", maxK: 7, mode: sev1alpha1.PodMigrationJobModeReservationFirst, presetRef: true,
 			maxFaults: 1, depth: 8, legacy: true})
 		// migration of a Pending pod: the reservation is owned by the pod itself, nothing is to be evicted
-		c17Run(t, env, &c17Cfg{name: "rf-pending-pod-hist", kind: "pendingpod", mode: sev1alpha1.PodMigrationJobModeReservationFirst, pending: true,
+		c17Run(t, env, &c17Cfg{name: "rf-pending-pod-hist", kind: "rf", mode: sev1alpha1.PodMigrationJobModeReservationFirst, pending: true,
 			maxFaults: 1, depth: 8})
 	}
 }
